@@ -204,3 +204,106 @@ func zzH_C17_send_failure_no_leak(t *zzT) {
 	t.Assert(len(mp.resCh) == 0, "no pending entry is leaked by the retry wrapper")
 	t.Reach("end")
 }
+
+var zz17ErrCancelled = errors.New("zz17: context cancelled")
+
+type zz17Ctx struct {
+	zzCtx
+	cancelled *bool
+}
+
+func (c zz17Ctx) Err() error {
+	if *c.cancelled {
+		return zz17ErrCancelled
+	}
+	return nil
+}
+
+// C17.b/c/d with TWO concurrent requests, a responder that may answer in either order, may duplicate
+// the first response and may answer after a timeout, and a canceller that may cancel the context of
+// request 0 at any moment — all interleavings within the scheduling budget (blockfree=0: every
+// deviation from the lowest-numbered-goroutine policy, also at a blocking point, draws on it).
+// Asserted: every request ends; a request that returns a response returns the one produced for ITS
+// payload (never the other request's, never a duplicate's); the only errors are the timeout and the
+// cancellation (the latter only for the cancelled request); nothing stays blocked; no pending entry
+// is leaked.
+//
+//zz:opt loop=4000 join=1 blockfree=0
+//zz:quick sched=1 cancel=0 budget=300s
+//zz:thorough sched=1 cancel=1 budget=3600s paths=4000000
+//zz:stub time.Now zzStubNow
+//zz:stub time.After zz17After
+//zz:stub github.com/google/uuid.New zz17UUID
+//zz:stub github.com/libp2p/go-libp2p/core/network.WithUseTransient zzStubWithUseTransient
+func zzH_C17_concurrent_requests(t *zzT) {
+	reps := 1
+	timeout := 2 * time.Millisecond
+	if !t.Symbolic() {
+		reps = 200
+	}
+	dup := t.Bool("duplicate the first response")
+	swap := t.Bool("answer in reverse order")
+	cancel := t.Param("cancel", 1) == 1 && t.Bool("cancel request 0")
+	p := [2]byte{t.U8("payload0"), t.U8("payload1")}
+	t.Assume(p[0] != p[1])
+	for r := 0; r < reps; r++ {
+		mp, h := zz17New(t, false, timeout)
+		var res [2]*Response
+		var errs [2]error
+		cancelled := false
+		ctx0 := zz17Ctx{zzCtx{done: make(chan struct{})}, &cancelled}
+		fin := make(chan int, 4)
+		for i := 0; i < 2; i++ {
+			go func(i int) {
+				var ctx context.Context = context.Background()
+				if i == 0 {
+					ctx = ctx0
+				}
+				res[i], errs[i] = mp.sendRequestMessage(ctx, zzPeerID(0), "k", []byte{p[i]})
+				fin <- i
+			}(i)
+		}
+		go func() {
+			a := <-h.sent
+			b := <-h.sent
+			if swap {
+				a, b = b, a
+			}
+			if !t.Symbolic() {
+				time.Sleep(timeout - time.Duration(20+r%40)*time.Microsecond)
+			}
+			zz17Respond(mp, a, zzPeerID(0))
+			if dup {
+				zz17Respond(mp, a, zzPeerID(0))
+			}
+			zz17Respond(mp, b, zzPeerID(0))
+			fin <- 2
+		}()
+		if cancel {
+			go func() {
+				if !t.Symbolic() {
+					time.Sleep(time.Duration(r%3) * time.Millisecond)
+				}
+				cancelled = true
+				close(ctx0.done)
+				fin <- 3
+			}()
+		}
+		n := 3
+		if cancel {
+			n = 4
+		}
+		for k := 0; k < n; k++ {
+			<-fin // every goroutine ends: nothing stays blocked
+		}
+		for i := 0; i < 2; i++ {
+			if errs[i] == nil {
+				t.Assert(res[i] != nil && len(res[i].Data()) == 1 && res[i].Data()[0] == p[i]+1, "a delivered response is the one produced for this very request")
+			} else {
+				t.Assert(errs[i] == errTimeout || (i == 0 && cancel && errs[i] == zz17ErrCancelled), "a request ends with its response, the timeout or its own cancellation")
+			}
+		}
+		t.Assert(len(mp.resCh) == 0, "no pending entry is leaked")
+	}
+	t.Reach("end")
+}
